@@ -4,3 +4,5 @@ cd "$(dirname "$0")/.."
 for id in $(.venv/bin/python -c "import json; print(' '.join(c['property_id'] for c in json.load(open('MANIFEST.json'))['checks']))"); do
   ./check $id --tier ${1:-quick} | tail -1
 done
+# engine cross-check (not a property check): CPython differential of the symbolic semantics; exit 3 = engine error
+PYTHONPATH="$(pwd)" VERIF_SCRATCH="$(pwd)/scratch" .venv/bin/python tools/cpython_diff.py | tail -1
